@@ -187,6 +187,11 @@ NEVER_IMPLIED = {"err", "rng_unused", "rng_overrun", "rng_mismatch", "rng_unscri
 def classify(mism, fatal):
     """fatal: set of 'op:key' or '*:key' patterns that belong to the property's projection."""
     op, key = mism.get("op"), mism.get("key")
+    # a behaviour that cannot be carried on because an earlier call left an object missing: what the property says
+    # about its remaining steps is unexamined.  Fatal wherever the projection names an outcome of a later step
+    # (every model-based property except C14, whose projection is panics alone).
+    if key == "cut_short":
+        return any(not f.endswith(":panic") for f in fatal)
     if f"{op}:{key}" in fatal or f"*:{key}" in fatal:
         return True
     if key in NEVER_IMPLIED:
@@ -284,7 +289,7 @@ def sample_script(d):
 WITNESS_Q = 23099
 REAL_SUITES = ["ed25519", "ed448", "p256", "ristretto255", "secp256k1", "secp256k1-tr"]
 GENERIC_KEYS = {"ok", "err", "culprits", "min", "max", "id", "same", "roundtrip_ok", "singles", "plains",
-                "inner_comm_eq", "commit_same", "keyed_by_own_id", "stage", "delta_ids", "structural_same"}
+                "inner_comm_eq", "commit_same", "keyed_by_own_id", "stage", "delta_ids", "structural_same", "refused_on_count"}
 ORDERED_KEYS = set()
 
 
@@ -342,7 +347,7 @@ def strip_reloads(line):
     return json.dumps(s)
 
 
-def trace_stage(ctx, fatal, n_quick=120, n_thorough=1200, suites=None, id_modes=("plain", "u16mul", "big", "derive"),
+def trace_stage(ctx, fatal, n_quick=120, n_thorough=1200, suites=None, id_modes=("plain", "u16mul", "big", "derive", "hi"),
                 paired_reload=False):
     """code -> spec.  Value-free structures of TLC's behaviours are run on the toy
     witness field (validated exactly by TraceAlg) and on the real suites
@@ -458,13 +463,22 @@ def trace_stage(ctx, fatal, n_quick=120, n_thorough=1200, suites=None, id_modes=
     n_real = 0
     with open(real_path, "w") as out:
         for si, suite in enumerate(suites or REAL_SUITES):
-            modes = id_modes if ctx.tier == "thorough" else (id_modes[si % len(id_modes)], "plain")
+            modes = id_modes if ctx.tier == "thorough" else (id_modes[(si + ctx.seed) % len(id_modes)], "plain")
             for mode in dict.fromkeys(modes):
                 ep = os.path.join(d, f"{suite}-{mode}.ndjson")
                 fv_run(suite, ctx.seed * 7 + si, ep, mode)
                 cur, k = None, 0
+
+                def close_scenario():
+                    # the real suite ended the scenario earlier than the witness did: an object the remaining steps
+                    # need does not exist there
+                    if cur in generic and k < len(generic[cur]):
+                        out.write(json.dumps({"op": "cut_short", "script": cur, "suite": suite, "id_mode": mode, "after": k,
+                                              "res": {"cut_short": True}, "wit": {"cut_short": False}}) + "\n")
+
                 for e in load_events(ep):
                     if e.get("op") == "reset":
+                        close_scenario()
                         cur, k = e["script"], 0
                         if cur in generic:
                             out.write(json.dumps(e) + "\n")
@@ -487,6 +501,7 @@ def trace_stage(ctx, fatal, n_quick=120, n_thorough=1200, suites=None, id_modes=
                         e.pop("queries", None)
                         out.write(json.dumps(e) + "\n")
                     k += 1
+                close_scenario()
                 os.remove(ep)
     n_ev, bad = run_trace_tlc(d, "TraceReal", real_path)
     ev = load_events(real_path)
